@@ -2,22 +2,31 @@
 
 package core
 
-func H20probe() {
-	n := vLen(0, vParam("n", 3))
-	s := "https://" + vString(n)
-	strict := vBool()
-	u, err := ParsePublicURL(s, strict)
-	if err == nil {
-		vCover("accepted")
-		vAssert(u != nil, "H20probe.nonnil: nil url")
-	} else {
-		vCover("rejected")
+import (
+	"net"
+	"strings"
+)
+
+func hWide(c byte) string {
+	// fullwidth form U+FF00+(c-0x20): EF BC 80+(c-0x20) for c<0x60 ; EF BD 80+(c-0x60) otherwise
+	if c < 0x60 {
+		return string([]byte{0xEF, 0xBC, 0x80 + (c - 0x20)})
 	}
+	return string([]byte{0xEF, 0xBD, 0x80 + (c - 0x60)})
 }
 
-func H20probe_twin() {
-	u, err := ParsePublicURL("https://"+vString(2), true)
-	if err == nil && u != nil {
-		vAssert(false, "H20probe_twin.reach: reachable")
+func HpWide() {
+	n := vParam("n", 2)
+	s := ""
+	for i := 0; i < n; i++ {
+		c := vU8()
+		vAssume(c >= 'a' && c <= 'z' || c >= '0' && c <= '9' || c >= 'A' && c <= 'Z')
+		s += hWide(c)
+	}
+	if strings.ToLower(s) == "ab" {
+		vCover("res")
+	}
+	if net.ParseIP(s) != nil {
+		vCover("ip")
 	}
 }
